@@ -1124,6 +1124,45 @@ def check_list(ctx, classes, arity_rule=None, empty_and_rule=None):
             'and members read a single pass' % (
                 f.qual, top_loops[0].lineno, top_loops[-1].lineno))
 
+    # the outer rule and its entries are the same kind of container: the
+    # classes `parse_rule` takes for a list rule are the classes the
+    # translator takes for an entry (a tuple accepted outside and refused
+    # inside turns a well-formed entry into a denial)
+    def container_classes(g, subject_is_param):
+        out = []
+        for n in ast.walk(g.node):
+            if isinstance(n, ast.Call) and isinstance(
+                    n.func, ast.Name) and n.func.id == 'isinstance' and len(
+                        n.args) == 2:
+                is_p = isinstance(n.args[0], ast.Name) and \
+                    n.args[0].id == g.params[0]
+                if is_p != subject_is_param:
+                    continue
+                cls_ = n.args[1]
+                if isinstance(cls_, ast.Name) and isinstance(
+                        g.module.assigns.get(cls_.id), ast.Tuple):
+                    cls_ = g.module.assigns[cls_.id]
+                names = sorted(U(x) for x in (
+                    cls_.elts if isinstance(cls_, ast.Tuple) else [cls_]))
+                if names != ['str'] and 'dict' not in names:
+                    out.append((n, names))
+        return out
+    pr_ = prog.functions.get(PARSER + '.parse_rule')
+    outer = container_classes(pr_, True) if pr_ is not None else []
+    inner = container_classes(f, False)
+    if outer and inner:
+        want_c = outer[0][1]
+        for n_, names in inner:
+            ctx.ob('C01.LIST', names == want_c, ctx.where(mod, n_), f.qual,
+                   'entry container classes %s' % names,
+                   'an entry is taken for a list of members exactly when it '
+                   'is of a class parse_rule takes for a list rule' if
+                   names == want_c else
+                   'parse_rule takes %s for a list rule, the translator '
+                   'takes %s for an entry: an entry of a class in the first '
+                   'set and not in the second is replaced by a denial'
+                   % (want_c, names))
+
     def inline(call, frame):
         g = prog.callee_of(frame, call)
         if g is None or g.module.name != PARSER or g.cls is not None:
